@@ -29,9 +29,13 @@ let string_of_codes l = String.concat "" (List.map (fun c -> String.make 1 (Char
    file whose header never reached the disk *)
 let unopenable = lazy (match create (z_of_int 2) Z0 [(z_of_int 1, z_of_int 1)] with Some h -> Some h | None -> None)
 let starts_with p s = String.length s >= String.length p && String.sub s 0 (String.length p) = p
+let codes_of_string s = List.init (String.length s) (fun i -> z_of_int (Char.code s.[i]))
+(* the file a name resolves to: the name cleaned lexically (the extracted [path_clean], Model/Path.v) *)
+let resolve name = if name = "" then "" else string_of_codes (path_clean (codes_of_string name))
 let lookup name : handle option =
   if name = "BADPATTERN" then Lazy.force unopenable      (* a malformed file pattern: reading the item fails *)
   else
+  let name = resolve name in
   match get_file name with
   | Some h -> Some h
   | None ->
@@ -141,7 +145,9 @@ let () =
     else
       run_world "clicopy" kv (List.concat_map (fun (s, d) -> [s; d]) jobs)
         (fun long w id ns dflt -> run_copies flocq_fops long o w (List.map (fun (s, d) -> (id s, id d)) jobs) ns dflt)
-        (List.map snd jobs));
+        (List.map snd jobs);
+    (* probe=1: the copy is one session on its destination (locked for as long as the source is fetched) *)
+    if geti kv "probe" 0 = 1 && geti kv "remote" 0 = 1 then obs "clicopy-held held");
   let diff_model op tk =
     let kv = kv_of tk in
     apply_live kv;
@@ -171,6 +177,10 @@ let () =
   register "cliexit" (diff_model "cliexit");
   register "clisum" (fun tk ->
     let kv = kv_of tk in
+    (* probe=1: a read-only command holds none of its files when it returns *)
+    let emit_readonly op kv st recs =
+      emit_readonly op kv st recs;
+      if geti kv "probe" 0 = 1 && geti kv "remote" 0 = 0 && get kv "hold" "" = "" then obs "clisum-held 0" in
     let items = parse_items kv in
     let ns = nows kv in
     let aid = getz kv "archive" (-1) and from = getz kv "from" 0 and until = getz kv "until" 0 in
